@@ -1,6 +1,6 @@
 (* C03 -- parsing is total: value or error, never a panic; recursion bounded. *)
 From Coq Require Import SpecFloat.
-Require Import Base Value Float PrintOptions ParseOptions Reader Scan Num Parser DepthProofs.
+Require Import Base Value Float PrintOptions ParseOptions Reader Scan Num Parser DepthProofs DepthBoundProofs.
 
 (* Reader-level code (scanners, escapes, numbers, tokens, whitespace, byte
    vectors, end_seq/expect_end) cannot panic by construction: its error type
@@ -52,6 +52,34 @@ Print Assumptions C03_from_trait_no_panic.
 (* Non-vacuity and the nesting limit on concrete inputs (default options, all
    three sources): 127 levels are accepted, 128 are rejected, for parentheses
    and for quote shorthands; the model does not run out of fuel on them. *)
+(* Nothing nested more deeply than the budget is ever accepted. vdepth v is the
+   nesting of v as the parser sees it (lists, vectors, quotations; a dotted
+   tail that is a list counts as written flat; the empty list costs nothing).
+   For every option set, input, source kind and fuel: a value returned by a
+   call made with remaining budget D has vdepth < D and the budget is handed
+   back; from the initial budget of 128 no accepted value nests more than 127
+   levels. So input that nests more deeply - through parentheses, brackets,
+   vectors, quote shorthands, dotted tails or any mixture - is never accepted;
+   by C03_from_trait_no_panic it does not panic; the witnesses below show the
+   error it gets and that 127 levels are accepted. *)
+Theorem C03_depth_every_call : forall ro alpha fast std_parse fuel D s, depth s = D -> 1 <= D <= 128 ->
+  match next_value ro alpha fast std_parse fuel s with
+  | (POk (Some v), s') => N.of_nat (vdepth v) < D /\ depth s' = D
+  | (POk None, s') => depth s' = D
+  | (PErr _, _) => True
+  end.
+Proof.
+  intros ro alpha fast std_parse fuel D s Hd HD.
+  pose proof (proj1 (values_depth ro alpha fast std_parse fuel) D s Hd HD) as H.
+  destruct (next_value ro alpha fast std_parse fuel s) as [[[v|]|e] s1]; try exact I; [exact H|apply H].
+Qed.
+Print Assumptions C03_depth_every_call.
+
+Theorem C03_depth_bounded : forall ro alpha fast std_parse k inp v,
+  from_trait ro alpha fast std_parse k inp = POk v -> (vdepth v <= 127)%nat.
+Proof. exact from_trait_depth. Qed.
+Print Assumptions C03_depth_bounded.
+
 Definition parens (n : nat) : bytes := repeat 40 n ++ [120] ++ repeat 41 n.
 Definition quotes (n : nat) : bytes := repeat 39 n ++ [120].
 Definition is_ok {A} (r : pres A) : bool := match r with POk _ => true | _ => false end.
@@ -66,4 +94,12 @@ Example C03_limit_witness :
     is_limit (from_trait default_ro (fun _ => true) true dec_to_f64 k (bytes_events (quotes 128))) &&
     is_limit (datum_from_trait default_ro (fun _ => true) true dec_to_f64 k (bytes_events (quotes 128))))
     [SrcStr; SrcSlice; SrcIo] = true.
+Proof. vm_compute. reflexivity. Qed.
+
+(* the bound is tight: 127 nested lists are accepted and nest exactly 127 levels *)
+Example C03_depth_tight :
+  match from_trait default_ro (fun _ => true) true dec_to_f64 SrcSlice (bytes_events (parens 127)) with
+  | POk v => vdepth v = 127%nat
+  | PErr _ => False
+  end.
 Proof. vm_compute. reflexivity. Qed.
